@@ -20,7 +20,7 @@ CONSTANTS
   AgeSet,       \* ages (minutes, >= 0) an entry file may have in a population
   FutureAges,   \* how far in the future (minutes, > 0) an mtime may lie; {} for none
   NEAgeSet,     \* ages of the non-entry files (all of one population share one)
-  NEAll,        \* TRUE: only the populations "all non-entries" / "none"; FALSE: every subset
+  NEAll,        \* TRUE: every non-entry file is there; FALSE: every subset of them
   TTPast,       \* last-trim times, minutes ago (>= 0)
   TTFuture,     \* last-trim times, minutes ahead (> 0)
   TTCorrupt,    \* number of corrupt-record variants (the driver knows what bytes variant c is)
@@ -42,7 +42,7 @@ TTSet == {[k |-> "missing", v |-> 0]}
          \cup {[k |-> "time", v |-> 0 - t] : t \in TTFuture}
 
 EntryPops == [EntryFiles -> Ages \cup {ABSENT}]
-NESubsets == IF NEAll THEN {NonEntries, {}} ELSE SUBSET NonEntries
+NESubsets == IF NEAll THEN {NonEntries} ELSE SUBSET NonEntries
 NEPops    == {[f \in NonEntries |-> IF f \in S THEN a ELSE ABSENT] : S \in NESubsets, a \in NEAgeSet}
 \* Sample = 0: the whole product.  Sample = K: K pseudo-random entry populations (TLC -seed), each
 \* combined with one pseudo-random non-entry population and TTSample pseudo-random trim.txt classes
